@@ -75,7 +75,7 @@ def run_case(case):
             ind = pickle.load(f)
         sns = []
         for l in out:
-            t = [x for x in l.split("\t")[12:] if x.startswith("sn:Z:")]
+            t = [x for x in l.split("\t")[-3:] if x.startswith("sn:Z:")]
             core.check(len(t) >= 1, "output record without sn tag: %r", l)
             sns.append(t[-1][5:])
         present = set(sns) - {"unknown"}
